@@ -1,6 +1,6 @@
 (* Runner operations for the resolver family C01-C07 (ops 100-199). *)
 From Coq Require Import List Bool NArith ZArith.
-From PV Require Import Base.Str Base.Value Base.Wire Resolver.Consts Resolver.Text Resolver.Resolve Resolver.Template Resolver.Creds Resolver.Spec Resolver.SubFacts Resolver.FixFacts Run.RState.
+From PV Require Import Base.Str Base.Value Base.Wire Resolver.Consts Resolver.Text Resolver.Resolve Resolver.Template Resolver.Creds Resolver.Spec Resolver.SubFacts Resolver.FixFacts Resolver.Memo Resolver.QTree Resolver.MemoFacts Run.RState.
 Import ListNotations.
 Local Open Scope N_scope.
 
@@ -45,5 +45,12 @@ Definition run01 (st : rstate) (op : N) (arg : value) : option (rstate * value) 
                        VBool (forallb (fun kv => nodict (snd kv)) (dict_of ps));
                        VBool (forallb (fun m => forallb (fun t => forallb (fun l => nodict (snd l)) (dict_of (snd t)))
                                                         (dict_of (snd m))) (dict_of maps))])
+  | 109, VList [ps; maps; cdecl] =>
+      (* the memoising condition resolver itself: values in declaration order + the names it left in its cache, oldest first *)
+      Some (st, enc_res (match memo_resolve_all (dict_of ps) (dict_of maps) (dict_of cdecl) with
+                         | Ok (l, s) => Ok (VList [VDict (map (fun nb => (fst nb, VBool (snd nb))) l);
+                                                   VList (map (fun nb => VList [VStr (fst nb); VBool (snd nb)]) (rev (cache s)))])
+                         | Err e => Err e
+                         end))
   | _, _ => None
   end.
